@@ -161,6 +161,10 @@ impl TypedReprRef<'_> {
             }
         }
 
+        let mut leading_zeros = match self {
+            RefSmall(x) => x.leading_zeros(),
+            RefLarge(words) => words.last().unwrap().leading_zeros(),
+        };
         let mut bytes = if negate {
             match self {
                 RefSmall(x) => {
@@ -171,6 +175,8 @@ impl TypedReprRef<'_> {
                 RefLarge(words) => {
                     let mut buffer = Buffer::from(words);
                     debug_assert_zero!(add::sub_one_in_place(&mut buffer));
+                    // the bytes written are those of |self| - 1, which can be one byte shorter
+                    leading_zeros = buffer.last().unwrap().leading_zeros();
                     words_to_le_bytes::<true>(&buffer)
                 }
             }
@@ -178,10 +184,6 @@ impl TypedReprRef<'_> {
             self.to_le_bytes()
         };
 
-        let leading_zeros = match self {
-            RefSmall(x) => x.leading_zeros(),
-            RefLarge(words) => words.last().unwrap().leading_zeros(),
-        };
         if leading_zeros % 8 == 0 {
             // add extra byte representing the sign, because the top bit is used
             bytes.push(if negate { 0xff } else { 0 });
@@ -209,6 +211,10 @@ impl TypedReprRef<'_> {
             }
         }
 
+        let mut leading_zeros = match self {
+            RefSmall(x) => x.leading_zeros(),
+            RefLarge(words) => words.last().unwrap().leading_zeros(),
+        };
         let mut bytes = if negate {
             match self {
                 RefSmall(x) => {
@@ -219,6 +225,8 @@ impl TypedReprRef<'_> {
                 RefLarge(words) => {
                     let mut buffer = Buffer::from(words);
                     debug_assert_zero!(add::sub_one_in_place(&mut buffer));
+                    // the bytes written are those of |self| - 1, which can be one byte shorter
+                    leading_zeros = buffer.last().unwrap().leading_zeros();
                     words_to_be_bytes::<true>(&buffer)
                 }
             }
@@ -226,10 +234,6 @@ impl TypedReprRef<'_> {
             self.to_be_bytes()
         };
 
-        let leading_zeros = match self {
-            RefSmall(x) => x.leading_zeros(),
-            RefLarge(words) => words.last().unwrap().leading_zeros(),
-        };
         if leading_zeros % 8 == 0 {
             // add extra byte representing the sign, because the top bit is used
             bytes.insert(0, if negate { 0xff } else { 0 });
